@@ -36,18 +36,73 @@ class _EmptyDC:
     pass
 
 
+def family(ctx: Ctx) -> List[Func]:
+    """The functions that make up the value hasher: everything of the hashing module that `dds_hash` reaches through calls
+    (nested closures, methods of a helper object it builds, module-level helpers), the digest helpers `_algo*` excepted."""
+    got = getattr(ctx, "_hasher_family", None)
+    if got is not None:
+        return got
+    outer = ctx.prog.funcs.get("dds.fun_args.dds_hash")
+    if outer is None:
+        raise AnchorError("dds.fun_args.dds_hash not found")
+    fam: List[Func] = []
+    work = [outer]
+    while work:
+        f = work.pop()
+        for n in f.own_nodes():
+            if isinstance(n, ast.Call):
+                fs, _ = ctx.prog.callees(f, n, ctx._types)
+                for g in fs:
+                    if g.module is outer.module and g is not outer and g not in fam and not g.name.startswith("_algo"):
+                        fam.append(g)
+                        work.append(g)
+    fam.sort(key=lambda g: (g.node.lineno, g.qname))
+    ctx._hasher_family = fam  # type: ignore
+    return fam
+
+
+def fam_call(ctx: Ctx, f: Func, c: ast.AST) -> Optional[Func]:
+    """the member of the hasher family that a call node of `f` invokes (None otherwise)"""
+    if not isinstance(c, ast.Call):
+        return None
+    fam = family(ctx)
+    fs, _ = ctx.prog.callees(f, c, ctx._types)
+    for g in fs:
+        if g in fam:
+            return g
+    return None
+
+
+def value_param(g: Func) -> str:
+    ps = g.positional_params()
+    return ps[0] if ps else ""
+
+
 def hasher(ctx: Ctx) -> Tuple[Func, Func]:
     outer = ctx.prog.funcs.get("dds.fun_args.dds_hash")
     if outer is None:
         raise AnchorError("dds.fun_args.dds_hash not found")
     best = None
-    for nf in outer.nested.values():
+    total = 0
+    for nf in family(ctx):
         k = sum(1 for n in nf.own_nodes() if isinstance(n, ast.Call) and unparse(n.func) == "isinstance")
+        total += k
         if best is None or k > best[0]:
             best = (k, nf)
-    if best is None or best[0] < 5:
-        raise AnchorError("role value-hasher (nested function of dds_hash with the isinstance chain) not found")
+    if best is None or total < 5:
+        raise AnchorError("role value-hasher (the functions `dds_hash` reaches in its module, with the isinstance chain) not found")
     return outer, best[1]
+
+
+def all_branches(ctx: Ctx) -> List[Tuple[List[str], ast.If, Func]]:
+    """the type branches of the value hasher, over every dispatching member of the family (a member with at least three
+    type tests of its value parameter at the top level of its body)"""
+    out: List[Tuple[List[str], ast.If, Func]] = []
+    for g in family(ctx):
+        bs = [(names, st) for names, st in branches(g) if names]
+        if len(bs) >= 3:
+            out += [(names, st, g) for names, st in bs]
+    return out
 
 
 def branches(h: Func) -> List[Tuple[List[str], ast.If]]:
@@ -168,9 +223,10 @@ def run(ctx: Ctx) -> None:
     rep = ctx.report
     prog = ctx.prog
     outer, h = hasher(ctx)
-    elt = h.params[0]
-    brs = branches(h)
+    fam = family(ctx)
+    brs = all_branches(ctx)
     rep.analysed["hasher"] = h.qname
+    rep.analysed["hasher_family"] = [g.qname for g in fam]
     rep.analysed["branches"] = [b[0] for b in brs]
     rep.rule("C05.R1", "partial primitive applied to the value only under a dominating domain guard")
     rep.rule("C05.R2", "no nondeterminism source; no digest memo keyed by the value (dict / lru_cache)")
@@ -178,13 +234,12 @@ def run(ctx: Ctx) -> None:
     rep.rule("C05.R4", "abstract evaluation of the hasher on boundary values: pre-images pairwise distinct")
     rep.rule("C05.R5", "numeric pre-image lengths / tags disjoint")
     rep.rule("C05.R6", "size guard dominates iteration and raises SEQUENCE_TOO_LONG")
-    cfg = cfg_of(h)
 
     # ---- R1 -------------------------------------------------------------------------------
     n1 = 0
-    for names, br in brs:
+    for names, br, bf in brs:
         is_int = "int" in names
-        for hf, elt_, n in branch_nodes(ctx, h, br, elt):
+        for hf, elt_, n in branch_nodes(ctx, bf, br, value_param(bf)):
             if not isinstance(n, ast.Call):
                 continue
             d = prog.dotted(hf, n.func) or ""
@@ -267,10 +322,13 @@ def run(ctx: Ctx) -> None:
 
     # ---- R3 / R6 ----------------------------------------------------------------------------
     n3 = 0
-    rec_names = {nf.name for nf in outer.nested.values()}
-    len_checkers = [nf for nf in outer.nested.values() if raises_with_code(nf, "SEQUENCE_TOO_LONG")]
+    len_checkers = [nf for nf in fam if raises_with_code(nf, "SEQUENCE_TOO_LONG")]
+    dispatchers = []
+    for _n, _b, bf in brs:
+        if bf not in dispatchers:
+            dispatchers.append(bf)
     if not len_checkers:
-        rep.bad("C05.R6", outer.qname, "a size guard raising SEQUENCE_TOO_LONG exists", outer.loc(), ["no nested function raises DDSException(..., SEQUENCE_TOO_LONG)"], "no-guard",
+        rep.bad("C05.R6", outer.qname, "a size guard raising SEQUENCE_TOO_LONG exists", outer.loc(), ["no function of the value hasher raises DDSException(..., SEQUENCE_TOO_LONG)"], "no-guard",
                 what="no size guard with a coded error")
     # the size limit the guard compares with is a validated option value
     rep.rule("C05.R9", "set_option stores a value only after its validation completed normally (the size guard compares len() with hash.max_sequence_size: a "
@@ -302,8 +360,8 @@ def run(ctx: Ctx) -> None:
         for r in raises_with_code(g, "SEQUENCE_TOO_LONG"):
             region = [(g, r.lineno, getattr(r, "end_lineno", r.lineno))]
             for c in ast.walk(r):
-                if isinstance(c, ast.Call) and isinstance(c.func, ast.Name) and c.func.id in outer.nested:
-                    hf = outer.nested[c.func.id]
+                hf = fam_call(ctx, g, c)
+                if hf is not None:
                     region.append((hf, hf.node.lineno, getattr(hf.node, "end_lineno", hf.node.lineno)))
             errs = []
             for e in getattr(ctx.types, "errors", []):
@@ -319,14 +377,15 @@ def run(ctx: Ctx) -> None:
                         what="building the size-limit error message raises a low-level TypeError")
             else:
                 rep.ok("C05.R7", g.qname, desc + f" ({len(region)} region(s))", g.loc(r))
-    for names, br in brs:
+    for names, br, h in brs:
         if not (set(names) & {"list", "tuple", "dict", "OrderedDict", "<dataclass>"}):
             continue
         n3 += 1
         label = "/".join(names)
+        cfg = cfg_of(h)
         wit: List[str] = []
         comps = [n for n in ast.walk(br) if isinstance(n, (ast.ListComp, ast.GeneratorExp))
-                 and any(isinstance(x, ast.Call) and isinstance(x.func, ast.Name) and x.func.id in rec_names for x in ast.walk(n.elt))]
+                 and any(fam_call(ctx, h, x) is not None for x in ast.walk(n.elt))]
         for c in comps:
             for g in c.generators:
                 if g.ifs:
@@ -340,7 +399,7 @@ def run(ctx: Ctx) -> None:
             targets = {t.id for g in c.generators for t in ast.walk(g.target) if isinstance(t, ast.Name)}
             used_in_rec = set()
             for call in ast.walk(c.elt):
-                if isinstance(call, ast.Call) and isinstance(call.func, ast.Name) and call.func.id in rec_names:
+                if fam_call(ctx, h, call) is not None:
                     for a in call.args:
                         used_in_rec |= {x.id for x in ast.walk(a) if isinstance(x, ast.Name)}
             zipped_hash_pairs = "<dataclass>" in names
@@ -349,7 +408,6 @@ def run(ctx: Ctx) -> None:
             for g in c.generators:
                 if isinstance(g.iter, ast.Call) and unparse(g.iter.func) == "enumerate" and isinstance(g.target, ast.Tuple) and isinstance(g.target.elts[0], ast.Name):
                     missing.discard(g.target.elts[0].id)
-            missing = {m_ for m_ in missing if not _used_as_hashed_value(c, m_, rec_names)}
             if missing:
                 wit.append(f"{h.loc(c)}: component(s) {sorted(missing)} of each element never reach the recursive hasher: values differing only there collide")
         for call in ast.walk(br):
@@ -367,8 +425,8 @@ def run(ctx: Ctx) -> None:
         else:
             rep.ok("C05.R3", h.qname, desc, h.loc(br))
         # R6: size guard precedes any comprehension / recursion of this branch
-        guards = [n for n in ast.walk(br) if isinstance(n, ast.Call) and isinstance(n.func, ast.Name) and n.func.id in {g.name for g in len_checkers}]
-        iters = comps + [n for n in ast.walk(br) if isinstance(n, ast.Call) and isinstance(n.func, ast.Name) and n.func.id in rec_names and n not in guards]
+        guards = [n for n in ast.walk(br) if fam_call(ctx, h, n) in len_checkers and isinstance(n, ast.Call)]
+        iters = comps + [n for n in ast.walk(br) if fam_call(ctx, h, n) is not None and n not in guards]
         desc6 = f"branch {label}: the length check precedes the iteration"
         if not guards:
             rep.bad("C05.R6", h.qname, desc6, h.loc(br), ["no call of the size guard in this branch: a huge container is walked entirely"], f"guard:{label}", what=f"no size guard in the {label} branch")
@@ -384,20 +442,21 @@ def run(ctx: Ctx) -> None:
                 rep.ok("C05.R6", h.qname, desc6, h.loc(guards[0]))
             else:
                 rep.bad("C05.R6", h.qname, desc6, h.loc(bad[0]), bad[1], f"guard-order:{label}", what=f"the {label} branch iterates before checking the length")
-    for nf in outer.nested.values():
-        if nf is h or nf in len_checkers:
+    for nf in fam:
+        if nf in dispatchers or nf in len_checkers:
             continue
-        rcalls = [c for c in nf.own_nodes() if isinstance(c, ast.Call) and isinstance(c.func, ast.Name) and c.func.id in rec_names]
+        rcalls = [c for c in nf.own_nodes() if fam_call(ctx, nf, c) is not None]
         rets = [r for r in nf.own_nodes() if isinstance(r, ast.Return) and r.value is not None]
-        if not rcalls or not rets or len(nf.params) < 2 or not any(rc in list(ast.walk(r.value)) for r in rets for rc in rcalls):
+        nf_params = nf.positional_params()
+        if not rcalls or not rets or len(nf_params) < 2 or not any(rc in list(ast.walk(r.value)) for r in rets for rc in rcalls):
             continue
         n3 += 1
         used = set()
         for r in rets:
             for c in ast.walk(r.value):
-                if isinstance(c, ast.Call) and isinstance(c.func, ast.Name) and c.func.id in rec_names and c.args:
+                if fam_call(ctx, nf, c) is not None and c.args:
                     used |= {x.id for x in ast.walk(c.args[0]) if isinstance(x, ast.Name)}
-        missing = [p_ for p_ in nf.params if p_ not in used]
+        missing = [p_ for p_ in nf_params if p_ not in used]
         desc = f"helper {nf.name}: every component it is given is hashed into what it returns"
         if missing:
             rep.bad("C05.R3", nf.qname, desc, nf.loc(), [f"parameter(s) {missing} never reach the recursive hasher in the returned value: mappings that differ only there collide ({{a: 1}} / {{b: 1}})"],
@@ -407,7 +466,7 @@ def run(ctx: Ctx) -> None:
     rep.floor("C05.R3", n3, 4)
 
     # ---- R3b: the text form used for dates / times is the type-qualified one
-    for names, br in brs:
+    for names, br, h in brs:
         if not any(x.startswith("datetime.") for x in names):
             continue
         n3 += 1
@@ -437,7 +496,7 @@ def run(ctx: Ctx) -> None:
     pre: Dict[str, Any] = {}
     und = []
     for label, val in boundary:
-        ev = Evaluator(prog, oracle=oracle, max_depth=20)
+        ev = Evaluator(prog, oracle=oracle, max_depth=20, instance_modules=[outer.module.name])
         try:
             outs = ev.run(outer, [Const(val)])
         except Exception as e:  # Unsupported syntax
@@ -469,13 +528,13 @@ def run(ctx: Ctx) -> None:
     widths: Dict[str, List[int]] = {}
     tags: List[Tuple[str, bytes, str]] = []
     other: List[str] = []
-    for names, br in brs:
+    for names, br, bf in brs:
         if not (set(names) & {"int", "float"}):
             continue
         label = "/".join(names)
         for n in ast.walk(br):
             if isinstance(n, ast.Call) and isinstance(n.func, ast.Name) and n.func.id.startswith("_algo") and n.args:
-                for pf, a in preimages(ctx, h, n.args[0]):
+                for pf, a in preimages(ctx, bf, n.args[0]):
                     if isinstance(a, ast.Call) and (prog.dotted(pf, a.func) or "") == "struct.pack" and a.args and isinstance(a.args[0], ast.Constant):
                         widths.setdefault(label, []).append(struct.calcsize(a.args[0].value))
                     elif isinstance(a, ast.BinOp) and isinstance(a.op, ast.Add) and _const_bytes(ctx, pf, a.left) is not None:
